@@ -32,19 +32,25 @@ pub fn decode(mut src: &[u8], mut uncompressed_size: usize) -> io::Result<Vec<u8
         None
     };
 
-    let mut dst = vec![0; uncompressed_size];
-
-    if flags.is_uncompressed() {
-        dst.copy_from_slice(src);
-    } else if flags.uses_external_codec() {
-        decode_ext(&mut src, &mut dst)?;
-    } else if flags.is_rle() {
-        rle::decode(&mut src, flags, &mut dst)?;
-    } else if flags.order() == 0 {
-        order_0::decode(&mut src, &mut dst)?;
+    let mut dst = if flags.is_uncompressed() {
+        src.get(..uncompressed_size)
+            .ok_or_else(|| io::Error::from(io::ErrorKind::UnexpectedEof))?
+            .to_vec()
     } else {
-        order_1::decode(&mut src, &mut dst)?;
-    }
+        let mut dst = vec![0; uncompressed_size];
+
+        if flags.uses_external_codec() {
+            decode_ext(&mut src, &mut dst)?;
+        } else if flags.is_rle() {
+            rle::decode(&mut src, flags, &mut dst)?;
+        } else if flags.order() == 0 {
+            order_0::decode(&mut src, &mut dst)?;
+        } else {
+            order_1::decode(&mut src, &mut dst)?;
+        }
+
+        dst
+    };
 
     if let Some(ctx) = bit_pack_context {
         dst = bit_pack::decode(&dst, &ctx)?;
@@ -129,6 +135,20 @@ mod tests {
         assert_eq!(decode(&src, 0)?, b"noodles");
 
         Ok(())
+    }
+
+    #[test]
+    fn test_decode_uncompressed_with_invalid_uncompressed_size() {
+        let src = [
+            0x20, // flags = CAT
+            0x08, // uncompressed len = 8
+            0x6e, 0x6f, 0x6f, 0x64, 0x6c, 0x65, 0x73,
+        ];
+
+        assert!(matches!(
+            decode(&src, 0),
+            Err(e) if e.kind() == io::ErrorKind::UnexpectedEof
+        ));
     }
 
     #[test]
